@@ -35,9 +35,29 @@ def _cls(items):
     return r
 
 
+def space_chars():
+    """the characters matched by \\s in a str pattern (computed from Python's own tables)"""
+    import re
+    import sys
+    rs = re.compile(r'\s')
+    return [chr(c) for c in range(sys.maxunicode + 1) if chr(c).isspace() or rs.match(chr(c))]
+
+
+_SPACE = None
+
+
+def space_class(exclude=''):
+    global _SPACE
+    if _SPACE is None:
+        _SPACE = space_chars()
+    return z3.Union(*[_char(ord(c)) for c in _SPACE if c not in exclude])
+
+
 def _category(av):
     if av is C.CATEGORY_SPACE:
-        return z3.Union(*[_char(ord(c)) for c in ' \t\n\r\f\v'])
+        return space_class()
+    if av is C.CATEGORY_NOT_SPACE:
+        return z3.Intersect(z3.AllChar(z3.ReSort(z3.StringSort())), z3.Complement(space_class()))
     if av is C.CATEGORY_DIGIT:
         return z3.Range('0', '9')
     raise Unsupported(str(av))
